@@ -5,8 +5,18 @@ from . import grids, ugrid
 CONVENTIONS = ['cf1d', 'cf2d', 'shoc_simple', 'shoc_standard', 'ugrid']
 
 
+SIZE_POLICY = {'large': False}
+
+
+def set_large_sizes(flag=True):
+    """Thorough tiers: every sixth dataset is drawn from a larger size range (grids to 14 x 14, meshes to ~150 faces)."""
+    SIZE_POLICY['large'] = bool(flag)
+
+
 def make(rng, convention=None, **kw):
     convention = convention or pick(rng, CONVENTIONS)
+    if SIZE_POLICY['large'] and 'maxn' not in kw and rng.random() < 1 / 6:
+        kw = dict(kw, maxn=10 if convention == 'ugrid' else 14)
     if convention == 'cf1d':
         return grids.make_cf1d(rng, **kw)
     if convention == 'cf2d':
